@@ -73,6 +73,69 @@ WalkSD(s, mva) ==
                         ext |-> Slice(l1, 8, 5) * 16 + Slice(l1, 23, 20),
                         texcb |-> texcb, pa |-> WOr(WAnd(l1, <<M - 256, 0>>), WAnd(mva, <<255, MM>>))]
 
+-----------------------------------------------------------------------------
+(* Long-descriptor format (LPAE), stage 1 for PL1&0 (B3.6.? TranslationTableWalkLD).  A 64-bit quantity is a pair  *)
+(* of words [lo, hi]; a 40-bit address is [pa (bits 31:0), ext (bits 39:32)].  Faults in this format make the       *)
+(* emulator consult its documented, unimplemented hook tlb_lookup_came_from_cache_maintenance(): outcome notimpl.   *)
+TTBCR_T0SZ(s) == Slice(s.sys.TTBCR, 2, 0)
+TTBCR_T1SZ(s) == Slice(s.sys.TTBCR, 18, 16)
+TTBCR_EPD0(s) == Bit(s.sys.TTBCR, 7)
+TTBCR_EPD1(s) == Bit(s.sys.TTBCR, 23)
+
+\* read a 64-bit descriptor at the 40-bit address <<pa, ext>> (SCTLR.EE selects its endianness)
+ReadDesc64(s, pa, ext) ==
+  LET bs0 == IF ext # 0 THEN [i \in 1..8 |-> 0] ELSE HubRead(s.mem, pa, 8).bytes
+      bs  == IF SCTLR_EE(s) = 1 THEN Reverse(bs0) ELSE bs0
+  IN [lo |-> BytesToWord(SubSeq(bs, 1, 4)), hi |-> BytesToWord(SubSeq(bs, 5, 8))]
+
+\* MAIRn.Attr<idx> -> memory type
+MAIRType(s, idx) ==
+  LET reg  == IF idx < 4 THEN s.sys.MAIR0 ELSE s.sys.MAIR1
+      k    == idx % 4
+      attr == Slice(reg, 8 * k + 7, 8 * k)
+      hi4  == attr \div 16  lo4 == attr % 16
+  IN IF hi4 = 0 THEN (IF lo4 = 0 THEN "SO" ELSE IF lo4 = 4 THEN "DEV" ELSE "IMPDEF")
+     ELSE IF hi4 \div 4 = 0 THEN "IMPDEF"                                  \* transient forms: not supported by the emulator
+     ELSE IF hi4 \div 4 = 1 /\ hi4 % 4 # 0 THEN "IMPDEF"
+     ELSE IF (lo4 \div 8 = 1) \/ (lo4 % 8 = 4) THEN "NORMAL" ELSE "IMPDEF"
+
+\* the levels below the first lookup: level in 2..3, base = <<pa, ext>>, accumulated table attributes
+RECURSIVE WalkLDFrom(_, _, _, _, _, _, _, _)
+WalkLDFrom(s, ia, level, first, startbit, base, tbl, unp) ==
+  LET lsb   == 39 - 9 * level                                        \* lowest input-address bit of this level's index
+      index == IF first THEN Slice(ia, startbit, lsb) ELSE Slice(ia, lsb + 8, lsb)
+      la    == WOr(base[1], <<index \div 8192, (index % 8192) * 8>>)
+      d     == ReadDesc64(s, la, base[2])
+  IN IF Bit(d.lo, 0) = 0 THEN [f |-> "TRANSLATION", level |-> level, unp |-> unp]
+     ELSE IF Bit(d.lo, 1) = 0 /\ level = 3 THEN [f |-> "TRANSLATION", level |-> level, unp |-> unp]
+     ELSE IF Bit(d.lo, 1) = 1 /\ level < 3
+     THEN WalkLDFrom(s, ia, level + 1, FALSE, startbit, <<WAnd(d.lo, <<MM, M - 4096>>), Slice(d.hi, 7, 0)>>,
+                     [rw   |-> tbl.rw /\ Bit(d.hi, 30) = 0,      \* APTable<1>
+                      user |-> tbl.user /\ Bit(d.hi, 29) = 0,    \* APTable<0>
+                      xn   |-> tbl.xn \/ Bit(d.hi, 28) = 1, pxn |-> tbl.pxn \/ Bit(d.hi, 27) = 1], unp)
+     ELSE \* block (levels 1, 2) or page (level 3)
+       LET ap2 == IF tbl.rw THEN Bit(d.lo, 7) ELSE 1
+           ap1 == IF tbl.user THEN Bit(d.lo, 6) ELSE 0
+       IN IF Bit(d.lo, 10) = 0 THEN [f |-> "ACCESS_FLAG", level |-> level, unp |-> unp]
+          ELSE [f |-> "ok", level |-> level, unp |-> unp, ap |-> ap2 * 4 + ap1 * 2 + 1,
+                pa |-> WOr(WAnd(d.lo, TopMask(32 - lsb)), WAnd(ia, MaskW(lsb - 1, 0))), ext |-> Slice(d.hi, 7, 0),
+                mt |-> MAIRType(s, Slice(d.lo, 4, 2))]
+
+WalkLD(s, ia) ==
+  LET t0 == TTBCR_T0SZ(s)  t1 == TTBCR_T1SZ(s)
+      use0 == t0 = 0 \/ IsZeroW(LSRw(ia, 32 - t0))
+      use1 == (t1 = 0 /\ ~use0) \/ (t1 > 0 /\ LSRw(ia, 32 - t1) = <<0, 2^t1 - 1>>)
+      tsz  == IF use1 THEN t1 ELSE t0
+      ttlo == IF use1 THEN s.sys.TTBR1 ELSE s.sys.TTBR0
+      tthi == IF use1 THEN s.sys.TTBR1H ELSE s.sys.TTBR0H
+      dis  == IF use1 THEN TTBCR_EPD1(s) = 1 ELSE TTBCR_EPD0(s) = 1
+      level == IF tsz \div 2 = 0 THEN 1 ELSE 2
+      lb   == 9 * level - tsz - 4
+      base == <<WAnd(ttlo, TopMask(32 - lb)), Slice(tthi, 7, 0)>>
+      unp  == lb > 3 /\ Slice(ttlo, lb - 1, 3) # 0
+  IN IF (~use0 /\ ~use1) \/ dis THEN [f |-> "TRANSLATION", level |-> 1, unp |-> FALSE]
+     ELSE WalkLDFrom(s, ia, level, TRUE, 31 - tsz, base, [rw |-> TRUE, user |-> TRUE, xn |-> FALSE, pxn |-> FALSE], unp)
+
 \* CheckPermission for VMSA: AP<0> forced to 1 under AFE; AP = 100 reserved; 111 = read-only
 PermAbortV(ap0, afe, priv, iswrite) ==
   LET ap == IF afe = 1 THEN (ap0 \div 2) * 2 + 1 ELSE ap0 IN
@@ -100,7 +163,16 @@ TranslateV(x, va, priv, iswrite, size, wasaligned) ==
           THEN IF ishyp THEN [x |-> NotImpl(x, "unmodelled:hyp-abort"), pa |-> mva, ext |-> 0]
                ELSE [x |-> DataAbortSD(UnpredIf(x, ~s.cfg.virt), mva, iswrite, "ALIGNMENT", 1, 0), pa |-> mva, ext |-> 0]
           ELSE [x |-> x, pa |-> mva, ext |-> 0]
-     ELSE IF ishyp \/ TTBCR_EAE(s) = 1 THEN [x |-> NotImpl(x, "unmodelled:long-descriptor"), pa |-> mva, ext |-> 0]
+     ELSE IF ishyp \/ (TTBCR_EAE(s) = 1 /\ ~s.cfg.lpae) THEN [x |-> NotImpl(x, "unmodelled:long-descriptor"), pa |-> mva, ext |-> 0]
+     ELSE IF TTBCR_EAE(s) = 1 THEN
+       LET w  == WalkLD(s, mva)
+           x0 == UnpredIf(x, w.unp)
+           LDFault(xx) == NotImpl(xx, "tlb_lookup_came_from_cache_maintenance")     \* every long-descriptor-format fault
+       IN IF w.f # "ok" THEN [x |-> LDFault(x0), pa |-> mva, ext |-> 0]
+          ELSE IF (~wasaligned) /\ w.mt \in {"SO", "DEV", "IMPDEF"}
+               THEN [x |-> LDFault(UnpredIf(x0, (~s.cfg.virt) \/ w.mt = "IMPDEF")), pa |-> w.pa, ext |-> w.ext]
+          ELSE IF PermAbortV(w.ap, 1, priv, iswrite) THEN [x |-> LDFault(x0), pa |-> w.pa, ext |-> w.ext]
+          ELSE [x |-> x0, pa |-> w.pa, ext |-> w.ext]
      ELSE
        LET w == WalkSD(s, mva) IN
        IF w.f = "HWAF" THEN [x |-> NotImpl(x, "set_bits"), pa |-> mva, ext |-> 0]
